@@ -49,6 +49,17 @@ Theorem C18_wire_name_kept : forall fl n, wire_name (field_names fl n) = n.
 Proof. exact field_wire_name. Qed.
 Print Assumptions C18_wire_name_kept.
 
+(* enum values: the member name differs from the value only by the keyword suffix, is never a keyword,
+   and two values of one enum collide only in the shape  kw / kw_  (part of finding F18-silent-merge) *)
+Theorem C18_enum_member_collision : forall a b, enum_member a = enum_member b -> a <> b ->
+  (iskeyword a = true /\ b = (a ++ ["_"%char])%list) \/ (iskeyword b = true /\ a = (b ++ ["_"%char])%list).
+Proof. exact enum_member_collision. Qed.
+Print Assumptions C18_enum_member_collision.
+
+Theorem C18_enum_member_not_keyword : forall v, iskeyword (enum_member v) = false.
+Proof. exact enum_member_not_keyword. Qed.
+Print Assumptions C18_enum_member_not_keyword.
+
 (* ---- refutations of the full statements on the faithful model (finding F18) ---- *)
 Definition FL (a b c : bool) := {| f_snake := a; f_trim := b; f_reserved := c |}.
 
